@@ -168,7 +168,8 @@ func (h *histRun) buildNamed(name string, i int, op *opSpec, pc procCfg, hook fu
 	if op.DryNil {
 		bo.DryThenNil = 1 + op.N%2
 	}
-	bo.GCAfter, bo.SecondPlain = op.GCAfter, op.SecondPlain
+	bo.GCAfter, bo.SecondPlain, bo.ViaREPL = op.GCAfter, op.SecondPlain, op.REPL
+	h.w.replEvents = nil
 	h.w.failLate = op.FailLate
 	if op.Twice && op.Between != nil {
 		between := *op.Between
